@@ -26,3 +26,14 @@ package app
 //@   serves C28
 //@   requires a != nil
 //@   ensures values: result0 != nil && result1 != nil && a.model != nil && result0.val == bigdec(bytestr(a.model.Reward0)) && result1.val == bigdec(bytestr(a.model.RewardSafe))
+
+//@ # C01: the total-slashed pool grows by exactly the amount and the ledger is told the same amount in the base coin
+//@ func (*App).AddTotalSlashed
+//@   serves C01 C18 C19
+//@   requires a != nil && a.bus != nil && amount != nil
+//@   assumes loaded: a.model != nil ==> a.model.TotalSlashed != nil && a.model.TotalSlashed != amount
+//@   ensures pool: a.model != nil || old(amount.val) == 0
+//@   # (when the record is not in memory yet it is loaded first - lazy load assumed - and the clause is silent)
+//@   ensures added: old(amount.val) != 0 && old(a.model) != nil ==> a.model.TotalSlashed != nil && a.model.TotalSlashed.val == old(a.model.TotalSlashed.val) + old(amount.val)
+//@   ensures reported: ledgerDelta(a.bus.checker, 0) == old(ledgerDelta(a.bus.checker, 0)) + old(amount.val)
+//@   ensures othercoins: forall k types.CoinID :: k != 0 ==> ledgerDelta(a.bus.checker, k) == old(ledgerDelta(a.bus.checker, k))
